@@ -53,6 +53,7 @@ struct Config {
   uint64_t hold_ns{2000};
   uint64_t hang_s{20};
   bool arbitrary_versions{false};
+  bool step{false};  // trap-flag stepper inside library calls
   bool coupling{false};  // optimistic lock coupling: verify lock i while holding a grant on lock j > i
   uint32_t weights[kOpCount]{};
 };
@@ -76,14 +77,24 @@ SetPhase(uint32_t phase, int lock_index, int op)
   g_prog[t_mon.tid].state.store((phase << 16) | (static_cast<uint32_t>(lock_index) << 8) | op, kRlx);
 }
 
+std::atomic<uint64_t> g_stepped_calls{0};
 struct LibCall {
+  bool stepped{false};
   LibCall(uint32_t phase, int lock_index, int op)
   {
     SetPhase(phase, lock_index, op);
     tl_track = 1;
+    // instruction stepper: one library call in sixteen is single-stepped and stalled at a random instruction boundary
+    // (a preemption where no hook is)
+    if (g_cfg.step && t_chaos.enabled && (t_chaos.rng.Next() & 15) == 0) {
+      stepped = true;
+      g_stepped_calls.fetch_add(1, kRlx);
+      StepArm(1 + t_chaos.rng.Below(180), t_chaos.rng.Range(3000, 80000));
+    }
   }
   ~LibCall()
   {
+    if (stepped) StepDisarm();
     tl_track = 0;
     SetPhase(kPhClient, 0, 0);
   }
@@ -1385,6 +1396,11 @@ Run()
   res.Add("evaluations", g_ops_done.load());
   res.Add("runs", 1);
   res.Add("wall_ms", wall / 1000000);
+  if (g_cfg.step) {
+    res.Add("stepper_calls_single_stepped", g_stepped_calls.load());
+    res.Add("stepper_stalls_at_single_instructions", g_step_stalls.load());
+    res.Add("stepper_instructions_single_stepped", g_step_traps.load());
+  }
   uint64_t xs = 0;
   for (int i = 0; i < g_cfg.locks; ++i) xs += eng.boxes_[i].x_begun.load();
   res.Add("exclusive_sections", xs);
@@ -1440,6 +1456,8 @@ main(int argc, char **argv)
   g_cfg.hang_s = a.U("hang_s", 20);
   g_cfg.arbitrary_versions = a.U("arbver", 0) != 0;
   g_cfg.coupling = a.U("coupling", 0) != 0;
+  g_cfg.step = VERIF_STEPPER && a.U("step", 0) != 0;
+  if (g_cfg.step) StepperInstall();
   if (a.U("preempt", 0) != 0) PreempterStart(g_cfg.seed, 30, 400, 10, 200);
   if (g_cfg.threads < 1 || g_cfg.threads > kMaxThreads || g_cfg.locks < 1 || g_cfg.locks > kMaxLocks) {
     fprintf(stderr, "bad threads/locks\n");
